@@ -84,8 +84,8 @@ def envkey(cfg):
 
 
 def cfgkey(cfg):
-    return '%s|%s|n=%d|rows=%d|dr=%g|%s' % (envkey(cfg), cfg['via'], cfg['n'], cfg['rows'], cfg['dr'],
-                                           json.dumps(cfg['fam'], sort_keys=True))
+    return '%s|%s|n=%d|rows=%d|dr=%g|%s|%s' % (envkey(cfg), cfg['via'], cfg['n'], cfg['rows'], cfg['dr'],
+                                              cfg.get('history'), json.dumps(cfg['fam'], sort_keys=True))
 
 
 def hvar(cfg):
@@ -127,13 +127,25 @@ def row_amps(rows):
     return 1.0 + 0.5 * np.arange(rows)
 
 
+STRETCH = 0.002          # stretched mesh: g(i) = i (1 + STRETCH i): spacing grows by 0.4 % of a pixel per cell
+UNITS = [1.0, 1e-3, 1e-6, 1e-9]
+
+
+def mesh(cfg):
+    """radial grid in pixel units: i, or the stretched mesh for the direct option r='stretched'"""
+    i = np.arange(cfg['n'], dtype=float)
+    if cfg['opts'].get('r') == 'stretched':
+        return i * (1 + STRETCH * i)
+    return i
+
+
 def make_data(cfg):
     """(input, truth, rpix, xpix) for a configuration.  rpix / xpix: radius /
     distance from the symmetry axis, in pixels, of every element."""
     n, rows, d = cfg['n'], cfg['rows'], cfg['dr']
     F = scaled_family(cfg)
     if cfg['via'] == 'func':
-        r = np.arange(n) * d
+        r = mesh(cfg) * d
         amp = row_amps(rows)[:, None]
         src = amp * F.source(r)[None, :]
         prj = amp * F.proj(r)[None, :]
@@ -194,8 +206,8 @@ def run_method(cfg, data):
     pass_dr = cfg.get('pass_dr', True)
     if 'reg' in opts and isinstance(opts['reg'], list):
         opts['reg'] = tuple(opts['reg'])            # JSON round trip
-    if opts.get('r') == 'grid':                     # direct: explicit radial grid instead of dr
-        opts['r'] = np.arange(cfg['n']) * d
+    if opts.get('r') in ('grid', 'stretched'):      # direct: explicit radial grid (uniform / stretched) instead of dr
+        opts['r'] = mesh(cfg) * d
         pass_dr, d = False, 1
     if opts.get('origin') == 'tuple':               # rbasex: explicit (row, column) of the centre
         opts['origin'] = ((cfg['rows'] - 1) // 2, cfg['n'] - 1)
@@ -239,6 +251,10 @@ def run_method(cfg, data):
             T = abel.Transform(data, direction=direction, method=m, transform_options=kw, verbose=False)
             out = np.asarray(T.transform, dtype=float)
             return out, T
+        if cfg['via'] == 'quad':                     # the half-image front end of linbasex on the Q0 quadrant
+            n = cfg['n']
+            out = abel.linbasex.linbasex_transform(data[:n, n - 1:], basis_dir=None, verbose=False, **opts)
+            return np.asarray(out, dtype=float), None
         if cfg['via'] == 'full':
             if m == 'linbasex':
                 res = abel.linbasex.linbasex_transform_full(data, basis_dir=None, verbose=False, **opts)
@@ -265,13 +281,48 @@ def judged(cfg, rpix, xpix):
     return m
 
 
+HISTORIES = [None, 'SVD', 'L2', 'diff', 'pos', 'weights']
+
+
+def run_history(cfg, data, truth):
+    """rbasex: other calls in the same process, with the same image geometry, order and parity, before the
+    judged call (regularised inverses, masked weights): the judged result must not depend on them"""
+    import abel
+    h = cfg.get('history')
+    if not h or cfg['method'] != 'rbasex':
+        return
+    prj = truth if cfg['dir'] == 'forward' else data
+    opts = dict(cfg['opts'])
+    kw = dict(order=opts.get('order', 2), odd=opts.get('odd', False))
+    if opts.get('origin') == 'tuple':
+        kw['origin'] = ((cfg['rows'] - 1) // 2, cfg['n'] - 1)
+    if opts.get('origin') == 'offset':
+        o = offset_of(cfg)
+        kw['origin'] = ((cfg['rows'] - 1) // 2 + o[0], cfg['n'] - 1 + o[1])
+    with warnings.catch_warnings(), np.errstate(all='ignore'), _quiet():
+        warnings.simplefilter('ignore')
+        if h == 'weights':
+            w = np.ones_like(prj)
+            w[: prj.shape[0] // 3, : prj.shape[1] // 3] = 0
+            abel.rbasex.rbasex_transform(np.array(prj, dtype=float), weights=w, out=None, verbose=False, **kw)
+        else:
+            reg = {'SVD': ('SVD', 0.05), 'L2': ('L2', 10.0), 'diff': ('diff', 10.0), 'pos': 'pos'}[h]
+            if h == 'pos' and (kw['order'] % 2 == 1 and kw['order'] > 1):
+                reg = ('L2', 1.0)                   # 'pos' is not implemented for odd orders > 1
+            abel.rbasex.rbasex_transform(np.array(prj, dtype=float), reg=reg, out=None, verbose=False, **kw)
+
+
 def _run(cfg):
     """-> (result, truth, rpix, xpix, extra) with result/truth of equal shape"""
     data, truth, rpix, xpix = make_data(cfg)
+    run_history(cfg, data, truth)
     res = run_method(cfg, np.array(data, dtype=float, copy=True))
     extra = None
     if isinstance(res, tuple):
         res, extra = res
+    if cfg['via'] == 'quad':
+        n = cfg['n']
+        truth, rpix, xpix = truth[:n, n - 1:], rpix[:n, n - 1:], xpix[:n, n - 1:]
     if cfg['opts'].get('out') == 'fold':
         n = cfg['n']
         h = (cfg['rows'] + 1) // 2
@@ -338,7 +389,7 @@ OPTIONS = {
                  {'degree': 0, 'reg': 1.0}, {'degree': 1, 'reg': ('diff', 1.0)}, {'degree': 1, 'reg': ('L2', 1.0)},
                  {'degree': 2, 'reg': ('L2c', 1.0)}, {'degree': 3, 'reg': ('diff', 10.0)},
                  {'degree': 1, 'reg': 'nonneg'}],
-        'direct': [{}, {'correction': False}, {'r': 'grid'}],
+        'direct': [{}, {'correction': False}, {'r': 'grid'}, {'r': 'stretched'}, {'r': 'stretched', 'correction': False}],
         'hansenlaw': [{'hold_order': 0}, {'hold_order': 1}],
         'onion_bordas': [{}, {'shift_grid': False}],
         'onion_peeling': [{}], 'two_point': [{}], 'three_point': [{}],
@@ -355,7 +406,7 @@ OPTIONS = {
         'basex': [{}, {'sigma': 2.0}, {'correction': False}, {'sigma': 2.0, 'correction': False},
                   {'reg': 1.0}, {'sigma': 0.7, 'reg': 1.0}, {'sigma': 0.5, 'reg': 1.0}, {'sigma': 2.0, 'reg': 10.0}],
         'daun': [{'degree': 0}, {'degree': 1}, {'degree': 2}, {'degree': 3}],
-        'direct': [{}, {'correction': False}, {'r': 'grid'}],
+        'direct': [{}, {'correction': False}, {'r': 'grid'}, {'r': 'stretched'}, {'r': 'stretched', 'correction': False}],
         'hansenlaw': [{'hold_order': 0}, {'hold_order': 1}],
         'rbasex': [{'order': 0}, {}, {'order': 4}, {'order': 2, 'odd': True}, {'origin': 'tuple'}, {'out': 'fold'},
                    {'order': 6}, {'order': 3}, {'origin': 'offset'}, {'order': 4, 'origin': 'offset'},
@@ -458,6 +509,8 @@ def universe(direction, sizes=SIZES):
                         default_only = n >= 201
                         if default_only and opts != optl[0]:
                             continue
+                        if opts.get('r') == 'stretched':
+                            continue            # a whole image has one (uniform) column grid
                         for fam in families_2d(n, big=default_only):
                             out.append(dict(dir=direction, method=method, via='Transform', opts=opts, fam=fam, n=n))
                 else:
@@ -469,23 +522,31 @@ def universe(direction, sizes=SIZES):
     return out
 
 
-def assign(cfg, rng):
-    """fill in the free choices (rows, dr, via for whole-image methods, whether
-    dr is passed when it is 1) — none of them changes the relative error
-    beyond rounding (linearity, row independence, dr scaling)."""
+def assign(cfg, rng, via=None):
+    """fill in the free choices (rows, dr / unit of an explicit r grid, call path for whole-image methods, the
+    history of earlier rbasex calls, whether dr is passed when it is 1) — none of them changes the relative
+    error beyond rounding (linearity, row independence, dr scaling, independence of earlier calls)."""
     c = dict(cfg)
     n = c['n']
     if c['method'] in FULL_METHODS:
-        c['via'] = 'full' if rng.random() < 0.5 else 'Transform'
+        paths = ['full', 'Transform'] + (['quad'] if c['method'] == 'linbasex' else [])
+        c['via'] = via if via in paths else paths[int(rng.integers(len(paths)))]
         c['rows'] = 2 * n - 1
         c['dr'] = 1.0
+        if c['method'] == 'rbasex':
+            h = HISTORIES[int(rng.integers(len(HISTORIES)))]
+            if h == 'pos' and n > 64:
+                h = 'SVD'
+            c['history'] = h
     elif c['via'] == 'func':
         c['rows'] = int(ROWS[rng.integers(len(ROWS))])
-        c['dr'] = float(DRS[rng.integers(len(DRS))])
+        units = (DRS + UNITS) if 'r' in c['opts'] else DRS
+        c['dr'] = float(units[rng.integers(len(units))])
     else:
         iso = c['fam']['family'] != 'ring'
         c['rows'] = 7 if (iso and rng.random() < 0.3) else 2 * n - 1
-        c['dr'] = float(DRS[rng.integers(len(DRS))])
+        units = (DRS + UNITS) if 'r' in c['opts'] else DRS
+        c['dr'] = float(units[rng.integers(len(units))])
     c['pass_dr'] = bool(rng.random() < 0.5)
     return c
 
@@ -508,6 +569,8 @@ def scale_family(fam, k):
 def refine_bases(method, opts, thorough=True):
     """coarse configurations (name, n0, family in coarse pixels) whose physical
     distribution is then sampled k times finer"""
+    if opts.get('r') == 'stretched':
+        return []                                   # the stretched mesh has no "k times finer" counterpart here
     if method in HALF_METHODS:
         b = [dict(name='gauss6@26', n0=26, fam=gauss(6.0), via='func'),
              dict(name='bump3@26', n0=26, fam=dict(family='bump', R=20.0, p=3), via='func')]
@@ -595,7 +658,7 @@ elif clause == 'dr-scale':
     b = sweep.run_method(c1, np.array(sweep.make_data(c1)[0], dtype=float)); b = b[0] if isinstance(b, tuple) else b
     s = cfg['dr'] if cfg['dir'] == 'forward' else 1 / cfg['dr']
     dev = float(np.max(np.abs(a - s * b)) / np.max(np.abs(b)))
-    ok = dev <= 1e-12
+    ok = dev <= (1e-9 if 'r' in cfg['opts'] else 1e-12)
     print('%%s %%s options %%s dr=%%g: max |T(dr) - %%g*T(1)| / max|T(1)| = %%.3g' %% (cfg['dir'], cfg['method'], cfg['opts'], cfg['dr'], s, dev))
 print('clause', clause, 'holds' if ok else 'FAILS')
 sys.exit(0 if ok else 1)
